@@ -1,0 +1,28 @@
+//go:build verif
+
+// C17 (boot fallback): what package boot needs to know about place infos (govc, /verif). Only
+// compiled with -tags verif.
+
+package snap
+
+// parsedFrom(p, s): the place info p was obtained by parsing the snap file name s
+//@ ghost parsedFrom(iface, str) bool
+
+// Parsing a snap file name allocates a new Info and writes nothing else (T5: strings.Count and
+// friends have no model); the result is recorded as coming from that name.
+//@ func ParsePlaceInfoFromSnapFileName
+//@   trusted
+//@   assigns nothing
+//@   ensures result1 == nil ==> result0 != nil && parsedFrom(result0, sn)
+//@   ensures result1 != nil ==> result0 == nil
+//@   ensures sn == "" ==> result1 != nil
+
+// name, revision and file name of a place info are functions of the place info (T5)
+//@ func (snap.PlaceInfo).Filename
+//@   opaque
+
+//@ func (snap.PlaceInfo).SnapName
+//@   opaque
+
+//@ func (snap.PlaceInfo).SnapRevision
+//@   opaque
